@@ -87,6 +87,28 @@ Theorem fp_relabel_invariant_ZD :
 Proof. exact fp_relabel_invariant_ZD_lemma. Qed.
 Print Assumptions fp_relabel_invariant_ZD.
 
+(* "all n! atom permutations", explicitly: a permutation given as a table t of pairs (old index, new index) whose right
+   column is a rearrangement of its left column; `table_fun t x` = t[x] for a key x, x otherwise *)
+Theorem fp_relabel_invariant_all_permutations :
+  forall (D : ringdict) (C : sconsts) (fuel : nat) (o : opts) (t : list (Z * Z)) (m : mol D),
+  ordlaws D -> cone_ok C ->
+  NoDup (map fst t) -> Permutation (map fst t) (map snd t) ->
+  NoDup (map (a_idx D) (m_atoms D m)) -> (o_stereo o = true -> gp_mol D o m) ->
+  let p := table_fun t in
+  match run D C fuel o m, run D C fuel o (relabel D p m) with
+  | Ok st, Ok st' =>
+      st_k st' = st_k st /\
+      (forall lv, Permutation (map s_ident (shells_at_true st lv)) (map s_ident (shells_at_true st' lv))) /\
+      (forall req mask, Permutation (map (prP p) (shells_query o st req mask)) (map pr (shells_query o st' req (map p mask)))) /\
+      (forall counts bits req mask,
+         fingerprint_query o counts bits st' req (map p mask) = fingerprint_query o counts bits st req mask) /\
+      (o_remdup o = false -> forall lv, Permutation (map (R p) (shells_at_true st lv)) (shells_at_true st' lv))
+  | Raises e, Raises e' => e = e'
+  | _, _ => False
+  end.
+Proof. exact fp_relabel_invariant_perm_lemma. Qed.
+Print Assumptions fp_relabel_invariant_all_permutations.
+
 (* the atoms of the renumbered molecule may be listed in any order, not only sorted (mol_rel) *)
 Theorem fp_relabel_invariant_any_order :
   forall (D : ringdict) (C : sconsts) (fuel : nat) (o : opts) (p : Z -> Z) (m m' : mol D),
